@@ -126,6 +126,12 @@ Lemma gen_fix_samples :
   existsb (fun '(n, k, r) => n =? 0) fix_samples && existsb (fun '(n, k, r) => negb (n =? 0) && negb (k + 1 =? n)) fix_samples = true.
 Proof. vm_compute. reflexivity. Qed.
 
+(* the first numbered state file a lookup by time asks for (observed by the probe on the four
+   ...StateAt entry points) is the Min the model searches from *)
+Lemma gen_first_samples :
+  (4 <=? Z.of_nat (List.length first_samples)) && forallb (fun '(k, n) => kind_min k =? n) first_samples = true.
+Proof. vm_compute. reflexivity. Qed.
+
 (* ---- the decoders' data: keys, separators, line numbers, number parsers, time formats ---- *)
 From Verif Require Import C19.Decode C19.DecodeGen C19.ProofsDecode.
 
